@@ -131,10 +131,12 @@ class BigTtlTriplesYielder(BaseTriplesYielder):
                 yield self._current_triple()
                 self._state = _WAITING_FOR_OBJ
             elif next_token == ";":
-                yield self._current_triple()
+                if self._state != _WAITING_FOR_PRED:  # A repeated ';' closes nothing: its triple was already yielded
+                    yield self._current_triple()
                 self._state = _WAITING_FOR_PRED
             elif next_token == ".":
-                yield self._current_triple()
+                if self._state != _WAITING_FOR_PRED:  # '... ; .' (dangling ';'): the triple was already yielded
+                    yield self._current_triple()
                 self._state = _WAITING_FOR_SUBJ
             else:
                 self._assing_tmp_element_and_promote_state(next_token)
